@@ -130,6 +130,10 @@ CONTRACTS.append(Contract(
 from contracts import c10_options  # noqa: E402
 
 CONTRACTS += c10_options.CONTRACTS
+from contracts import c04_policy as _pol  # noqa: E402
+
+# computing the per-category defaults must not write into the stored options (they are what to_dict() / to_string() export)
+CONTRACTS += [c for c in _pol.CONTRACTS if c.id.startswith("_init_default_schemes[2 schemes")]
 BOUNDED = [Bounded("c10", "harness/c10.py", descr="export/import equality and failed-change invariance on generated configs", timeout=900)]
 
 MUTANTS = [
